@@ -31,5 +31,9 @@ def run(ctx, R):
     topology.check_per_upstream(ctx, R, [c for c in nodes if c.module.name == 'streamz.core'])
     topology.check_belief_consistent(ctx, R, [c for c in nodes if c.module.name == 'streamz.core'])
     topology.check_weak_and_sinks(ctx, R)
+    topology.check_edit_reach(ctx, R)
     topology.check_destroy_super(ctx, R, nodes)
     delivery.check_fanout(ctx, R)
+
+
+META['level'] += ' connect()/disconnect() reach neither destroy() nor the removal from _global_sinks (call-graph closure), and per-upstream fields are resized unconditionally.'
